@@ -40,6 +40,17 @@ pub fn field(s: &[u8]) -> Vec<u8> {
     f
 }
 
+fn acc_of(f: &TopicFilter, s: &str) -> J {
+    match guarded(|| {
+        json!({"shared": f.is_shared(), "group": opt_text(f.shared_group_name()), "filter": opt_text(f.shared_filter()),
+               "info": match f.shared_info() { None => json!([]), Some((g, t)) => json!([[jtext(g), jtext(t)]]) },
+               "text_same": f.to_string() == s, "deref_same": &**f == s, "sys": f.is_sys()})
+    }) {
+        Ok(a) => a,
+        Err(m) => json!({"panic": m}),
+    }
+}
+
 fn v3_verdict(r: Result<Option<v3::Packet>, Error>, want: &str, text: impl Fn(&v3::Packet) -> Option<String>) -> J {
     match r {
         Ok(Some(p)) => match text(&p) {
@@ -77,12 +88,21 @@ fn in_packets(s: &str) -> J {
         let mut body = vec![0, 7];
         body.extend(field(b));
         body.push(1);
+        // the accessors of the filters as the decoders built them (C17: the share parts follow from the text,
+        // whoever constructed the value)
+        let mut pacc = serde_json::Map::new();
+        if let Ok(Some(v3::Packet::Subscribe(x))) = v3::Packet::decode(&frame(0x82, &body)) {
+            pacc.insert("v3sub".into(), acc_of(&x.topics[0].0, s));
+        }
         let v3sub = v3_verdict(v3::Packet::decode(&frame(0x82, &body)), s, |p| match p {
             v3::Packet::Subscribe(x) => Some(x.topics[0].0.to_string()),
             _ => None,
         });
         let mut body = vec![0, 7];
         body.extend(field(b));
+        if let Ok(Some(v3::Packet::Unsubscribe(x))) = v3::Packet::decode(&frame(0xA2, &body)) {
+            pacc.insert("v3unsub".into(), acc_of(&x.topics[0], s));
+        }
         let v3unsub = v3_verdict(v3::Packet::decode(&frame(0xA2, &body)), s, |p| match p {
             v3::Packet::Unsubscribe(x) => Some(x.topics[0].to_string()),
             _ => None,
@@ -90,12 +110,18 @@ fn in_packets(s: &str) -> J {
         let mut body = vec![0, 7, 0];
         body.extend(field(b));
         body.push(1);
+        if let Ok(Some(v5::Packet::Subscribe(x))) = v5::Packet::decode(&frame(0x82, &body)) {
+            pacc.insert("v5sub".into(), acc_of(&x.topics[0].0, s));
+        }
         let v5sub = v5_verdict(v5::Packet::decode(&frame(0x82, &body)), s, |p| match p {
             v5::Packet::Subscribe(x) => Some(x.topics[0].0.to_string()),
             _ => None,
         });
         let mut body = vec![0, 7, 0];
         body.extend(field(b));
+        if let Ok(Some(v5::Packet::Unsubscribe(x))) = v5::Packet::decode(&frame(0xA2, &body)) {
+            pacc.insert("v5unsub".into(), acc_of(&x.topics[0], s));
+        }
         let v5unsub = v5_verdict(v5::Packet::decode(&frame(0xA2, &body)), s, |p| match p {
             v5::Packet::Unsubscribe(x) => Some(x.topics[0].to_string()),
             _ => None,
@@ -120,6 +146,25 @@ fn in_packets(s: &str) -> J {
         body.extend(field(b"m"));
         let v3will = v3_verdict(v3::Packet::decode(&frame(0x10, &body)), s, |p| match p {
             v3::Packet::Connect(x) => x.last_will.as_ref().map(|w| w.topic_name.to_string()),
+            _ => None,
+        });
+        // the same fields in their other shapes: an MQTT 3.1 CONNECT, PUBLISH without payload
+        let mut body = vec![0, 6, b'M', b'Q', b'I', b's', b'd', b'p', 3, 0x04, 0, 10];
+        body.extend(field(b"c"));
+        body.extend(field(b));
+        body.extend(field(b"m"));
+        let v31will = v3_verdict(v3::Packet::decode(&frame(0x10, &body)), s, |p| match p {
+            v3::Packet::Connect(x) => x.last_will.as_ref().map(|w| w.topic_name.to_string()),
+            _ => None,
+        });
+        let v3pub0 = v3_verdict(v3::Packet::decode(&frame(0x30, &field(b))), s, |p| match p {
+            v3::Packet::Publish(x) => Some(x.topic_name.to_string()),
+            _ => None,
+        });
+        let mut body = field(b);
+        body.push(0);
+        let v5pub0 = v5_verdict(v5::Packet::decode(&frame(0x31, &body)), s, |p| match p {
+            v5::Packet::Publish(x) => Some(x.topic_name.to_string()),
             _ => None,
         });
         let mut body = vec![0, 4, b'M', b'Q', b'T', b'T', 5, 0x04, 0, 10, 0];
@@ -156,7 +201,8 @@ fn in_packets(s: &str) -> J {
         });
         json!({"v3sub": v3sub, "v3unsub": v3unsub, "v5sub": v5sub, "v5unsub": v5unsub,
                "v3pub": v3pub, "v5pub": v5pub, "v3will": v3will, "v5will": v5will,
-               "v5resp": v5resp, "v5willresp": v5willresp})
+               "v5resp": v5resp, "v5willresp": v5willresp, "v31will": v31will, "v3pub0": v3pub0, "v5pub0": v5pub0,
+               "acc": J::Object(pacc)})
     });
     match r {
         Ok(j) => j,
@@ -352,9 +398,16 @@ pub fn record_topic(out: &mut Out, tier: &str, seed: u64) {
     // every ASCII character, every Latin-1 character and the characters of the next block (same low bytes as ASCII),
     // alone, embedded, after a separator and inside a share group / shared filter
     for c in (0u32..0x180).filter_map(char::from_u32) {
-        for ctx in ["{}", "a{}b", "a/{}", "$share/g{}/t", "$share/g/{}"] {
+        for ctx in ["{}", "a{}b", "a/{}", "$share/g{}/t", "$share/g/{}", "$share/{}/t", "$share/{}{}/t"] {
             all.push(ctx.replace("{}", &c.to_string()));
         }
+    }
+    // many levels: a counter of separators narrower than the length of the text (255, 256, 257, 258, 300 and 70 000 of them)
+    for n in [254usize, 255, 256, 257, 258, 300, 1000, 30000] {
+        all.push(format!("$share/g/{}a", "a/".repeat(n)));
+        all.push(format!("$share/g{}", "/".repeat(n)));
+        all.push("a/".repeat(n));
+        all.push(format!("{}#", "+/".repeat(n)));
     }
     // characters that an escaping Display / Debug conversion would alter
     for sp in ["'", "\"", "\\", "\t", "\n", "\u{7f}", "\u{85}", "\u{301}", "\u{200b}", "\u{feff}", "\u{1}"] {
@@ -417,8 +470,11 @@ pub fn record_topic(out: &mut Out, tier: &str, seed: u64) {
         // share groups / levels that are prefixes of one another and continue with a character below or above '/'
         "$share/a-x/b", "$share/a$/b", "$share/a /b", "$share/a!/b", "$share/a./b", "$share/a0/b", "$share/a/", "$share/a//",
         "$share/a/b/c", "$share/a/b-", "$share/a/b!", "a-", "a!", "a/", "a0", "a/b-", "a/b/", "a-/b", "$share/$share/x/y",
-        "$share/$share/x", "$share/ /x", "$share/a/ ", " ", "!", "$share/a/-", "$share/a-/+",
+        "$share/$share/x", "$share/ /x", "$share/a/ ", " ", "!", "$share/a/-", "$share/a-/+", "$share/\t/#", "$share/\u{3000}/+/x",
+        "$SHARE/x", "$Share/#", "$SHARE/+/x",
     ];
+    pool.push(format!("$share/g/{}a", "a/".repeat(257)));
+    pool.push(format!("$share/g/{}a", "a/".repeat(256)));
     for b in base {
         pool.push(b.to_string());
     }
